@@ -52,30 +52,77 @@ func ruleC18Sources(c *Ctx) {
 	c.check(resolvedParam != nil && sl[resolvedParam], "C18-SOURCES", hname, "include-tree declarations reach the checks", extCall.Pos(),
 		"the document's resolved include tree flows into the external declarations",
 		"the include tree loaded for the document does not flow into the declarations used by the undeclared-account/commodity checks: without a workspace root, declarations in included files are ignored")
-	// the getters are fetched independently of the diagnostics settings
+	// the getters are fetched independently of the diagnostics settings (wherever the lookups live: in the
+	// analysis function or in a helper whose result flows into the declarations)
 	n := 0
-	for _, call := range findCalls(host, func(cal *ssa.Function) bool {
-		return calleeNameIs(cal, "workspace.Workspace).GetDeclaredAccounts") || calleeNameIs(cal, "workspace.Workspace).GetDeclaredCommodities")
-	}) {
-		n++
-		bad := ""
-		for _, cond := range controlConds(call.Block()) {
-			cs := backSlice(cond)
-			if sliceHasCall(cs, func(cal *ssa.Function, _ *ssa.Call) bool { return strings.Contains(funcName(cal), "getSettings") }) {
-				bad = "a condition derived from the settings"
-			}
-			for v := range cs {
-				if fa, ok := v.(*ssa.FieldAddr); ok {
-					if pt, ok := fa.X.Type().Underlying().(*types.Pointer); ok && strings.Contains(types.TypeString(pt.Elem(), nil), "Settings") {
-						bad = "a condition reading a settings field"
-					}
-				}
-				if p, ok := v.(*ssa.Parameter); ok && strings.Contains(types.TypeString(p.Type(), nil), "ettings") {
-					bad = "a condition on a settings parameter"
+	sm := settingsModel(c, false)
+	isSettingsType := func(t types.Type) bool {
+		rt := settingsRootType(sm)
+		if rt == nil {
+			return strings.Contains(types.TypeString(t, nil), "ettings")
+		}
+		if pt, ok := t.Underlying().(*types.Pointer); ok {
+			t = pt.Elem()
+		}
+		if types.Identical(t, rt) {
+			return true
+		}
+		if st, ok := rt.Underlying().(*types.Struct); ok {
+			for i := 0; i < st.NumFields(); i++ {
+				if types.Identical(st.Field(i).Type(), t) {
+					return true
 				}
 			}
 		}
-		c.check(bad == "", "C18-SOURCES", hname, "declaration lookup independent of settings: "+call.Common().StaticCallee().Name(), call.Pos(),
+		return false
+	}
+	cgv := cgView{c}
+	var lookups []*ssa.Call
+	for v := range sl {
+		if call, ok := v.(*ssa.Call); ok {
+			if cal := call.Common().StaticCallee(); cal != nil && (calleeNameIs(cal, "workspace.Workspace).GetDeclaredAccounts") || calleeNameIs(cal, "workspace.Workspace).GetDeclaredCommodities")) {
+				lookups = append(lookups, call)
+			}
+		}
+	}
+	sort.Slice(lookups, func(i, j int) bool { return lookups[i].Pos() < lookups[j].Pos() })
+	for _, call := range lookups {
+		n++
+		bad := ""
+		blks := []*ssa.BasicBlock{call.Block()}
+		for f, depth := call.Parent(), 0; f != host && depth < 3; depth++ {
+			sites := cgv.callersOf(f)
+			if len(sites) != 1 {
+				break
+			}
+			blks = append(blks, sites[0].Block())
+			f = sites[0].Parent()
+		}
+		for _, blk := range blks {
+			for _, cond := range controlConds(blk) {
+				cs := backSlice(cond)
+				if sliceHasCall(cs, func(cal *ssa.Function, _ *ssa.Call) bool { return isSettingsSnapshot(cal, sm) }) {
+					bad = "a condition derived from the settings"
+				}
+				for v := range cs {
+					switch x := v.(type) {
+					case *ssa.FieldAddr:
+						if isSettingsType(x.X.Type()) {
+							bad = "a condition reading a settings field"
+						}
+					case *ssa.Field:
+						if isSettingsType(x.X.Type()) {
+							bad = "a condition reading a settings field"
+						}
+					case *ssa.Parameter:
+						if isSettingsType(x.Type()) {
+							bad = "a condition on a settings parameter"
+						}
+					}
+				}
+			}
+		}
+		c.check(bad == "", "C18-SOURCES", funcName(call.Parent()), "declaration lookup independent of settings: "+call.Common().StaticCallee().Name(), call.Pos(),
 			"the lookup is conditioned only on the presence of a workspace",
 			"the workspace declaration lookup is conditioned on "+bad+": switching one warning kind off changes what the other kind sees")
 	}
@@ -268,10 +315,55 @@ func ruleC20(c *Ctx) {
 			"the per-posting aggregation is identical to "+c.P.declName(calcs[0].fd),
 			"the two account-balance calculators aggregate postings differently: hover figures depend on whether a resolved tree exists")
 	}
-	// aggregation uses explicitly posted amounts only: skips postings without amount, adds Amount.Quantity
+	// aggregation uses explicitly posted amounts only: the quantity is accumulated with the exact Add, and only
+	// for postings that carry an amount (control dependence on the amount pointer being non-nil, written either
+	// as `if p.Amount == nil { continue }` or as `if p.Amount != nil { ... }`)
 	for _, cl := range calcs {
-		okSkip := strings.Contains(cl.body, "Amount == nil") && strings.Contains(cl.body, "continue")
-		okAdd := strings.Contains(cl.body, ".Add(p.Amount.Quantity)") || strings.Contains(cl.body, ".Add(")
+		F := c.P.ssaOf(cl.fd)
+		okSkip, okAdd := false, false
+		if F != nil {
+			for _, blk := range F.Blocks {
+				for _, ins := range blk.Instrs {
+					call, ok := ins.(*ssa.Call)
+					if !ok {
+						continue
+					}
+					cal := call.Common().StaticCallee()
+					if cal == nil || cal.Name() != "Add" || cal.Pkg == nil || cal.Pkg.Pkg.Path() != decimalPkg {
+						continue
+					}
+					// an operand read from <posting>.Amount.Quantity
+					var amountPtr ssa.Value
+					for _, a := range call.Common().Args {
+						for v := range backSlice(a) {
+							if fa, ok := v.(*ssa.FieldAddr); ok {
+								bt := fa.X.Type().Underlying().(*types.Pointer).Elem()
+								if typeHasSuffix(bt, "/ast.Amount") && bt.Underlying().(*types.Struct).Field(fa.Field).Name() == "Quantity" {
+									amountPtr = fa.X
+								}
+							}
+						}
+					}
+					if amountPtr == nil {
+						continue
+					}
+					okAdd = true
+					for _, cc := range controlCondsPol(blk) {
+						bo, ok := cc.Cond.(*ssa.BinOp)
+						if !ok {
+							continue
+						}
+						isNilCmp := func(x, y ssa.Value) bool {
+							k, isK := y.(*ssa.Const)
+							return isK && k.IsNil() && sameLoad(x, amountPtr)
+						}
+						if (isNilCmp(bo.X, bo.Y) || isNilCmp(bo.Y, bo.X)) && ((bo.Op == token.NEQ && cc.Taken) || (bo.Op == token.EQL && !cc.Taken)) {
+							okSkip = true
+						}
+					}
+				}
+			}
+		}
 		c.check(okSkip && okAdd, "T10", c.P.declName(cl.fd), "sums explicitly posted amounts with Add", cl.fd.Pos(),
 			"postings without an amount are skipped and quantities are accumulated with the exact Add", "the calculator does not skip amount-less postings or does not accumulate with Add")
 	}
@@ -325,21 +417,84 @@ func ruleC20(c *Ctx) {
 		c.undecided("C20-ONCE", "include.ResolvedJournal.AllTransactions", "anchor", token.NoPos, "method not found")
 		return
 	}
-	ainfo := c.P.InfoFor(all)
-	nPrimary, nLoop := 0, 0
-	for _, st := range all.Body.List {
-		switch s := st.(type) {
-		case *ast.IfStmt:
-			if strings.Contains(fullStr(c.P.Fset, s.Body), "Primary.Transactions") {
-				nPrimary++
-			}
-		case *ast.RangeStmt:
-			if se, ok := ast.Unparen(s.X).(*ast.SelectorExpr); ok && se.Sel.Name == "FileOrder" {
-				nLoop++
-			} else if _, isMap := ainfo.TypeOf(s.X).Underlying().(*types.Map); isMap {
-				nLoop += 100
+	// on SSA, in the method and the module helpers it hands the tree to: the primary journal contributes outside
+	// any loop, the included files contribute inside a loop over FileOrder (each listed file once), and no
+	// iteration over the Files map contributes (order and multiplicity of a map walk are not the listed ones)
+	nPrimary, nLoop, nMapWalk := 0, 0, 0
+	if AT := c.P.ssaOf(all); AT != nil {
+		fns := []*ssa.Function{AT}
+		for _, blk := range AT.Blocks {
+			for _, ins := range blk.Instrs {
+				if call, ok := ins.(ssa.CallInstruction); ok {
+					if cal := call.Common().StaticCallee(); cal != nil && inModule(cal) && cal.Blocks != nil {
+						for _, a := range call.Common().Args {
+							if typeHasSuffix(a.Type(), "include.ResolvedJournal") {
+								fns = append(fns, cal)
+							}
+						}
+					}
+				}
 			}
 		}
+		fieldRead := func(sl map[ssa.Value]bool, name string) bool {
+			for v := range sl {
+				switch x := v.(type) {
+				case *ssa.FieldAddr:
+					bt := x.X.Type().Underlying().(*types.Pointer).Elem()
+					if typeHasSuffix(bt, "include.ResolvedJournal") && bt.Underlying().(*types.Struct).Field(x.Field).Name() == name {
+						return true
+					}
+				case *ssa.Field:
+					if typeHasSuffix(x.X.Type(), "include.ResolvedJournal") && x.X.Type().Underlying().(*types.Struct).Field(x.Field).Name() == name {
+						return true
+					}
+				}
+			}
+			return false
+		}
+		for _, f := range fns {
+			for _, blk := range f.Blocks {
+				for _, ins := range blk.Instrs {
+					call, ok := ins.(*ssa.Call)
+					if !ok {
+						continue
+					}
+					if bi, ok := call.Call.Value.(*ssa.Builtin); !ok || bi.Name() != "append" || len(call.Call.Args) < 2 {
+						continue
+					}
+					sl := backSlice(call.Call.Args[1])
+					viaMapWalk := false
+					for v := range sl {
+						if ex, ok := v.(*ssa.Extract); ok {
+							if nx, ok := ex.Tuple.(*ssa.Next); ok {
+								if rg, ok := nx.Iter.(*ssa.Range); ok {
+									if _, isMap := rg.X.Type().Underlying().(*types.Map); isMap && fieldRead(backSlice(rg.X), "Files") {
+										viaMapWalk = true
+									}
+								}
+							}
+						}
+					}
+					switch {
+					case viaMapWalk:
+						nMapWalk++
+					case fieldRead(sl, "Primary"):
+						if inCycle(blk) {
+							nPrimary += 100
+						} else {
+							nPrimary++
+						}
+					case fieldRead(sl, "Files") && fieldRead(sl, "FileOrder"):
+						if inCycle(blk) {
+							nLoop++
+						}
+					}
+				}
+			}
+		}
+	}
+	if nMapWalk > 0 {
+		nLoop += 100
 	}
 	c.check(nPrimary == 1 && nLoop == 1, "C20-ONCE", c.P.declName(all), "primary once, then each ordered file", all.Pos(),
 		"AllTransactions appends the primary journal once and then walks FileOrder once", fmt.Sprintf("AllTransactions does not have the shape 'primary once + one pass over FileOrder' (primary appends: %d, loops: %d)", nPrimary, nLoop))
@@ -1205,4 +1360,38 @@ func blockAfterUse(f *ssa.Function, b *ssa.BasicBlock, p *ssa.Parameter) bool {
 		w = append(w, x.Succs...)
 	}
 	return true
+}
+
+// sameLoad: two values are the same, or loads of the same location (go/ssa has no common subexpression
+// elimination: `p.Amount` read twice gives two loads of structurally identical addresses).
+func sameLoad(a, b ssa.Value) bool {
+	if a == b {
+		return true
+	}
+	la, ok1 := a.(*ssa.UnOp)
+	lb, ok2 := b.(*ssa.UnOp)
+	if !ok1 || !ok2 || la.Op != token.MUL || lb.Op != token.MUL {
+		return false
+	}
+	return sameAddr(la.X, lb.X, 0)
+}
+
+func sameAddr(a, b ssa.Value, depth int) bool {
+	if a == b {
+		return true
+	}
+	if depth > 6 {
+		return false
+	}
+	switch x := a.(type) {
+	case *ssa.FieldAddr:
+		y, ok := b.(*ssa.FieldAddr)
+		return ok && x.Field == y.Field && sameAddr(x.X, y.X, depth+1)
+	case *ssa.IndexAddr:
+		y, ok := b.(*ssa.IndexAddr)
+		return ok && x.Index == y.Index && (sameAddr(x.X, y.X, depth+1) || sameLoad(x.X, y.X))
+	case *ssa.UnOp:
+		return sameLoad(a, b)
+	}
+	return false
 }
